@@ -161,7 +161,7 @@ var props = []Prop{
 		Harnesses: []H{{Pkg: "ecs", Fn: "HC13_Determinism", MapOrder: true}, {Pkg: "ecs", Fn: "HC13_Determinism", MapOrder: true, Tags: "tiny", Tier: "thorough"}},
 		Conform: stdConform,
 		Census:  true,
-		Bounds:  "self-composition: two freshly created worlds (recording listeners and a registered filter installed) receive the same prefix (3, thorough 6) and the same 1 (thorough 2) operation(s) out of 9 kinds (creation, creation with target, removal, exchange, retarget, batch removal by filter, batch creation, Reset, batch exchange) with arguments picked once, plus two scripted scenarios (a target with empty tables in three nodes dies while a registered filter lists them; several targets die in one batch call and their table slots are re-used); handles, event sequences, query iteration order for 6 filters (plain and registered) and entity dumps must be equal in both worlds; in the engine every range over a map picks its next entry by a solver-chosen index, independently in the two worlds, so a dependence on map order yields a concrete witness order (replayed natively 50 times, Go randomises map iteration); the SSA census of map-range sites, pointer-to-integer conversions, go/select statements and time/rand callees in the four library packages is reported in the evidence",
+		Bounds:  "self-composition: two freshly created worlds (recording listeners and a registered filter installed) receive the same prefix (3, thorough 6) and the same 1 (thorough 2) operation(s) out of 9 kinds (creation, creation with target, removal, exchange, retarget, batch removal by filter, batch creation, Reset, batch exchange) with arguments picked once, plus three scripted scenarios (a target with empty tables in three nodes dies while a registered filter lists them; several targets die in one batch call and their table slots are re-used; Reset over a registered filter whose list interleaves relation tables with surviving tables - there world 1 ranges over maps in insertion order and world 2 in every order, which is as complete and keeps the path count linear); handles, event sequences, query iteration order for 6 filters (plain and registered) and entity dumps must be equal in both worlds; in the engine every range over a map picks its next entry by a solver-chosen index (entries deleted during the range are skipped as the language specifies), independently in the two worlds, so a dependence on map order yields a concrete witness order (replayed natively 50 times, Go randomises map iteration); the SSA census of map-range sites, pointer-to-integer conversions, go/select statements and time/rand callees in the four library packages is reported in the evidence",
 		Outside: "garbage-collection timing and cross-process effects other than map iteration order (the engine has no collector and one process); ordering by address is covered only by the census (no pointer-to-integer conversion exists in the library)",
 	},
 	{
